@@ -58,7 +58,211 @@ example : Parse.parseTm "initial p\ninput_symbols\np p aa,R\np q ab,L\np accept 
           qAccept := "accept", qReject := "reject", blank := "_",
           delta := [(("p", "a"), ("q", "b", Dir.L)), (("p", "_"), ("accept", "_", Dir.R))] } := by rfl
 
+/-! ### C16 — the TM and PDA round trips -/
+
+/-- `parse_tm (print_tm T)` succeeds and gives `T` back — same states, input alphabet, tape alphabet (as sets), same
+    initial / accepting / rejecting state and blank, same transition function — for every valid TM whose transition table
+    has no repeated key, whose state names are words other than the keywords of the format, and whose tape symbols are
+    single characters of the label class `[\w~!@#$%^&*□]`.  In particular an EMPTY input alphabet comes back empty
+    (the `input_symbols` line is printed even then).  (`Parse.TmNameOk`, `Parse.Char1` are defined in Proofs/C16c.lean;
+    the hypothesis on the blank follows from the one on `Γ` since `blank ∈ Γ`, it is kept for readability.) -/
+theorem parse_print_tm (T : TM String String) (hv : T.valid = true) (hk : (T.delta.map (·.1)).Nodup)
+    (hQ : ∀ q, q ∈ T.Q → Parse.TmNameOk q)
+    (hG : ∀ x, x ∈ T.Gamma → Parse.Char1 (Parse.isLabelSym true) x)
+    (_hb : Parse.Char1 (Parse.isLabelSym true) T.blank) :
+    ∃ T', Parse.parseTm (Parse.printTm T).toList = .ok T' ∧
+      (∀ q, q ∈ T'.Q ↔ q ∈ T.Q) ∧ (∀ a, a ∈ T'.Sigma ↔ a ∈ T.Sigma) ∧ (∀ x, x ∈ T'.Gamma ↔ x ∈ T.Gamma) ∧
+      T'.q0 = T.q0 ∧ T'.qAccept = T.qAccept ∧ T'.qReject = T.qReject ∧ T'.blank = T.blank ∧
+      ∀ k, T'.delta.lookup k = T.delta.lookup k := by
+  obtain ⟨T', hp, _, hQ', hS', hG', h0, ha, hr, hb', hd'⟩ := Parse.parse_print_tm_explicit T hv hk hQ hG
+  have hbG : T.blank ∈ T.Gamma := ((TM.valid_iff' T).mp hv).2.2.2.2.2.1
+  refine ⟨T', hp, ?_, ?_, ?_, h0, ha, hr, hb', ?_⟩
+  · intro q; rw [hQ']; exact mem_sortStrings_dedup
+  · intro a; rw [hS', mem_dedup]; exact mem_sortStrings_dedup
+  · intro x
+    rw [hG', mem_sinsert, mem_dedup, mem_sortStrings_dedup]
+    constructor
+    · rintro (h | rfl)
+      · exact h
+      · exact hbG
+    · exact Or.inl
+  · intro k
+    exact lookup_eq_of_perm hd' ((hd'.map (·.1)).nodup_iff.mpr hk) k
+
+/-- a TM with an EMPTY input alphabet (it writes `x` on the blank tape, steps back and accepts) -/
+def C16.exT : TM String String :=
+  { Q := ["s", "qr", "qa"], Sigma := [], Gamma := ["x", "_"], q0 := "s", qAccept := "qa", qReject := "qr", blank := "_",
+    delta := [(("s", "_"), ("s", "x", Dir.R)), (("s", "x"), ("qa", "_", Dir.L))] }
+
+/-- the hypotheses of `parse_print_tm` hold for it -/
+example : C16.exT.valid = true ∧ (C16.exT.delta.map (·.1)).Nodup ∧ (∀ q, q ∈ C16.exT.Q → Parse.TmNameOk q) ∧
+    (∀ x, x ∈ C16.exT.Gamma → Parse.Char1 (Parse.isLabelSym true) x) ∧
+    Parse.Char1 (Parse.isLabelSym true) C16.exT.blank := by
+  refine ⟨by decide, by decide, ?_, ?_, ⟨'_', rfl, by decide⟩⟩
+  · unfold Parse.TmNameOk; decide
+  · intro x hx
+    simp only [C16.exT, List.mem_cons, List.not_mem_nil, or_false] at hx
+    rcases hx with rfl | rfl
+    · exact ⟨'x', rfl, by decide⟩
+    · exact ⟨'_', rfl, by decide⟩
+
+theorem C16.exT_print : Parse.printTm C16.exT =
+    "states qa qr s\ninitial s\naccept qa\nreject qr\ninput_symbols \ntape_symbols _ x\nblank _\ns qa x_,L\ns s _x,R\n" := by
+  have s1 : sortStrings (dedup C16.exT.Q) = ["qa", "qr", "s"] := by
+    have : dedup C16.exT.Q = ["s", "qr", "qa"] := by rfl
+    rw [this]; simp [sortStrings, List.mergeSort, List.MergeSort.Internal.splitInTwo]
+  have s2 : sortStrings (dedup C16.exT.Sigma) = [] := by
+    have : dedup C16.exT.Sigma = [] := by rfl
+    rw [this]; simp [sortStrings]
+  have s3 : sortStrings (dedup C16.exT.Gamma) = ["_", "x"] := by
+    have : dedup C16.exT.Gamma = ["x", "_"] := by rfl
+    rw [this]; simp [sortStrings, List.mergeSort, List.MergeSort.Internal.splitInTwo]
+  have s4 : sortStrings (dedup ((C16.exT.delta.map fun e => (e.1.1, e.2.1, e.1.2 ++ e.2.2.1 ++ "," ++ dirStr e.2.2.2)).map
+      fun t => t.1 ++ " " ++ t.2.1)) = ["s qa", "s s"] := by
+    have : dedup ((C16.exT.delta.map fun e => (e.1.1, e.2.1, e.1.2 ++ e.2.2.1 ++ "," ++ dirStr e.2.2.2)).map
+        fun t => t.1 ++ " " ++ t.2.1) = ["s s", "s qa"] := by rfl
+    rw [this]; simp [sortStrings, List.mergeSort, List.MergeSort.Internal.splitInTwo]
+  unfold Parse.printTm Parse.transLines
+  simp only [s1, s2, s3, s4]
+  rfl
+
+/-- … and the round trip evaluated: the sets come back sorted, the transition entries in printing order, the input
+    alphabet EMPTY -/
+example : Parse.parseTm (Parse.printTm C16.exT).toList =
+    .ok { C16.exT with Q := ["qa", "qr", "s"], Sigma := [], Gamma := ["_", "x"],
+                       delta := [(("s", "x"), ("qa", "_", Dir.L)), (("s", "_"), ("s", "x", Dir.R))] } := by
+  rw [C16.exT_print]; rfl
+
+/-- the name condition is needed: a source state called `accept` prints a second `accept` declaration -/
+example : Parse.parseTm "states accept r\ninitial accept\naccept accept\nreject r\ninput_symbols \ntape_symbols _\nblank _\naccept r __,R\n".toList =
+    .error .runtimeError := by rfl
+
+/-- `parse_pda (print_pda P)` succeeds and gives `P` back — same states, alphabets, final states (as sets), same initial
+    state and ε, and the same transition relation — for every valid PDA whose transition table has no repeated key,
+    whose ε is one string for both roles, whose state names are words other than the keywords of the format, whose
+    input symbols and ε are single `\w` characters and whose stack symbols are single characters of the label class
+    `[\w~!@#$%^&*]`.  (`Parse.PdaNameOk`, `Parse.Char1` are defined in Proofs/C16c.lean.) -/
+theorem parse_print_pda (P : SPDA) (hv : P.valid = true) (hk : (P.delta.map (·.1)).Nodup) (heq : P.epsG = P.eps)
+    (hQ : ∀ q, q ∈ P.Q → Parse.PdaNameOk q)
+    (hS : ∀ a, a ∈ P.Sigma → Parse.Char1 Text.isWordChar a)
+    (hG : ∀ x, x ∈ P.Gamma → Parse.Char1 (Parse.isLabelSym false) x)
+    (he : Parse.Char1 Text.isWordChar P.eps) :
+    ∃ P', Parse.parsePda (Parse.printPda P).toList = .ok P' ∧
+      (∀ q, q ∈ P'.Q ↔ q ∈ P.Q) ∧ (∀ a, a ∈ P'.Sigma ↔ a ∈ P.Sigma) ∧ (∀ x, x ∈ P'.Gamma ↔ x ∈ P.Gamma) ∧
+      P'.q0 = P.q0 ∧ (∀ q, q ∈ P'.F ↔ q ∈ P.F) ∧ P'.eps = P.eps ∧ P'.epsG = P.epsG ∧
+      ∀ k t, t ∈ (P'.delta.lookup k).getD [] ↔ t ∈ (P.delta.lookup k).getD [] := by
+  obtain ⟨P', hp, _, hQ', hS', hG', h0, hF', he1, he2, hd'⟩ :=
+    Parse.parse_print_pda_explicit P ⟨hv, heq, hS, hG, he⟩ hk hQ
+  refine ⟨P', hp, ?_, ?_, ?_, h0, ?_, he1, he2.trans heq.symm, hd'⟩
+  · intro q; rw [hQ']; exact mem_sortStrings_dedup
+  · intro a; rw [hS', mem_dedup]; exact mem_sortStrings_dedup
+  · intro x; rw [hG', mem_dedup]; exact mem_sortStrings_dedup
+  · intro q; rw [hF']; exact mem_sortStrings_dedup
+
+/-- an `aⁿbⁿ`-style PDA with single-character symbols (`C09.exPDA` itself calls ε `"eps"`, which the label syntax
+    cannot carry); `δ(p, a, ε)` has two targets, printed on one line -/
+def C16.exP : SPDA :=
+  { Q := ["s", "p", "q", "f"], Sigma := ["b", "a"], Gamma := ["A", "$"],
+    delta := [(("s", "ε", "ε"), [("p", "$")]), (("p", "a", "ε"), [("p", "A"), ("p", "$")]),
+              (("p", "ε", "ε"), [("q", "ε")]), (("q", "b", "A"), [("q", "ε")]), (("q", "ε", "$"), [("f", "ε")])],
+    q0 := "s", F := ["f"], eps := "ε", epsG := "ε" }
+
+/-- the hypotheses of `parse_print_pda` hold for it -/
+example : C16.exP.valid = true ∧ (C16.exP.delta.map (·.1)).Nodup ∧ C16.exP.epsG = C16.exP.eps ∧
+    (∀ q, q ∈ C16.exP.Q → Parse.PdaNameOk q) ∧ (∀ a, a ∈ C16.exP.Sigma → Parse.Char1 Text.isWordChar a) ∧
+    (∀ x, x ∈ C16.exP.Gamma → Parse.Char1 (Parse.isLabelSym false) x) ∧ Parse.Char1 Text.isWordChar C16.exP.eps := by
+  refine ⟨by decide, by decide, rfl, ?_, ?_, ?_, ⟨'ε', rfl, by decide⟩⟩
+  · unfold Parse.PdaNameOk; decide
+  · intro x hx
+    simp only [C16.exP, List.mem_cons, List.not_mem_nil, or_false] at hx
+    rcases hx with rfl | rfl
+    · exact ⟨'b', rfl, by decide⟩
+    · exact ⟨'a', rfl, by decide⟩
+  · intro x hx
+    simp only [C16.exP, List.mem_cons, List.not_mem_nil, or_false] at hx
+    rcases hx with rfl | rfl
+    · exact ⟨'A', rfl, by decide⟩
+    · exact ⟨'$', rfl, by decide⟩
+
+set_option maxRecDepth 8192 in
+theorem C16.exP_print : Parse.printPda C16.exP =
+    "states f p q s\nfinal f\ninitial s\ninput_symbols a b\nstack_symbols $ A\nepsilon ε\np p a,εA a,ε$\np q ε,εε\nq f ε,$ε\nq q b,Aε\ns p ε,ε$\n" := by
+  have s1 : sortStrings (dedup C16.exP.Q) = ["f", "p", "q", "s"] := by
+    have : dedup C16.exP.Q = ["s", "p", "q", "f"] := by rfl
+    rw [this]; simp [sortStrings, List.mergeSort, List.MergeSort.Internal.splitInTwo]
+  have s2 : sortStrings (dedup C16.exP.F) = ["f"] := by
+    have : dedup C16.exP.F = ["f"] := by rfl
+    rw [this]; simp [sortStrings]
+  have s3 : sortStrings (dedup C16.exP.Sigma) = ["a", "b"] := by
+    have : dedup C16.exP.Sigma = ["b", "a"] := by rfl
+    rw [this]; simp [sortStrings, List.mergeSort, List.MergeSort.Internal.splitInTwo]
+  have s4 : sortStrings (dedup C16.exP.Gamma) = ["$", "A"] := by
+    have : dedup C16.exP.Gamma = ["A", "$"] := by rfl
+    rw [this]; simp [sortStrings, List.mergeSort, List.MergeSort.Internal.splitInTwo]
+  have s5 : sortStrings (dedup ((C16.exP.delta.flatMap fun e => e.2.map fun t =>
+      (e.1.1, t.1, e.1.2.1 ++ "," ++ e.1.2.2 ++ t.2)).map fun t => t.1 ++ " " ++ t.2.1)) =
+      ["p p", "p q", "q f", "q q", "s p"] := by
+    have : dedup ((C16.exP.delta.flatMap fun e => e.2.map fun t =>
+        (e.1.1, t.1, e.1.2.1 ++ "," ++ e.1.2.2 ++ t.2)).map fun t => t.1 ++ " " ++ t.2.1) =
+        ["s p", "p p", "p q", "q q", "q f"] := by rfl
+    rw [this]; simp [sortStrings, List.mergeSort, List.MergeSort.Internal.splitInTwo]
+  unfold Parse.printPda Parse.transLines
+  simp only [s1, s2, s3, s4, s5]
+  rfl
+
+set_option maxRecDepth 8192 in
+/-- … and the round trip evaluated: the sets come back sorted, the transition entries in printing order -/
+example : Parse.parsePda (Parse.printPda C16.exP).toList =
+    .ok { C16.exP with Q := ["f", "p", "q", "s"], Sigma := ["a", "b"], Gamma := ["$", "A"],
+                       delta := [(("p", "a", "ε"), [("p", "A"), ("p", "$")]), (("p", "ε", "ε"), [("q", "ε")]),
+                                 (("q", "ε", "$"), [("f", "ε")]), (("q", "b", "A"), [("q", "ε")]),
+                                 (("s", "ε", "ε"), [("p", "$")])] } := by
+  rw [C16.exP_print]; rfl
+
+/-- the single-character conditions are needed: with ε called `eps` (as in `C09.exPDA`) the printed label
+    `eps,epsA` is not of the form `\w,SS` and the line parser rejects it -/
+example : Parse.parsePda "states p\nfinal \ninitial p\ninput_symbols a\nstack_symbols A\nepsilon eps\np p eps,epsA\n".toList =
+    .error .runtimeError := by rfl
+
+/-- a table listing the key `(p, a, ε)` twice, with targets `A` then `B` -/
+def C16.exDup : SPDA :=
+  { Q := ["p"], Sigma := ["a"], Gamma := ["A", "B"], q0 := "p", F := [], eps := "ε", epsG := "ε",
+    delta := [(("p", "a", "ε"), [("p", "A")]), (("p", "a", "ε"), [("p", "B")])] }
+
+theorem C16.exDup_print : Parse.printPda C16.exDup =
+    "states p\nfinal \ninitial p\ninput_symbols a\nstack_symbols A B\nepsilon ε\np p a,εA a,εB\n" := by
+  have s1 : sortStrings (dedup C16.exDup.Q) = ["p"] := by
+    have : dedup C16.exDup.Q = ["p"] := by rfl
+    rw [this]; simp [sortStrings]
+  have s2 : sortStrings (dedup C16.exDup.F) = [] := by
+    have : dedup C16.exDup.F = [] := by rfl
+    rw [this]; simp [sortStrings]
+  have s3 : sortStrings (dedup C16.exDup.Sigma) = ["a"] := by
+    have : dedup C16.exDup.Sigma = ["a"] := by rfl
+    rw [this]; simp [sortStrings]
+  have s4 : sortStrings (dedup C16.exDup.Gamma) = ["A", "B"] := by
+    have : dedup C16.exDup.Gamma = ["A", "B"] := by rfl
+    rw [this]; simp [sortStrings, List.mergeSort, List.MergeSort.Internal.splitInTwo]
+  have s5 : sortStrings (dedup ((C16.exDup.delta.flatMap fun e => e.2.map fun t =>
+      (e.1.1, t.1, e.1.2.1 ++ "," ++ e.1.2.2 ++ t.2)).map fun t => t.1 ++ " " ++ t.2.1)) = ["p p"] := by
+    have : dedup ((C16.exDup.delta.flatMap fun e => e.2.map fun t =>
+        (e.1.1, t.1, e.1.2.1 ++ "," ++ e.1.2.2 ++ t.2)).map fun t => t.1 ++ " " ++ t.2.1) = ["p p"] := by rfl
+    rw [this]; simp [sortStrings]
+  unfold Parse.printPda Parse.transLines
+  simp only [s1, s2, s3, s4, s5]
+  rfl
+
+/-- the condition on repeated keys is needed: both entries are printed (on one line) and read back as ONE entry with
+    two targets, while the first-match lookup of the original only sees the first -/
+example : ∃ P', Parse.parsePda (Parse.printPda C16.exDup).toList = .ok P' ∧
+    P'.delta.lookup ("p", "a", "ε") = some [("p", "A"), ("p", "B")] ∧
+    C16.exDup.delta.lookup ("p", "a", "ε") = some [("p", "A")] := by
+  rw [C16.exDup_print]
+  exact ⟨_, rfl, rfl, rfl⟩
+
 #print axioms parsePda_builds
 #print axioms parseTm_builds
+#print axioms parse_print_tm
+#print axioms parse_print_pda
 
 end Gamba
